@@ -258,6 +258,21 @@ def facet_dispatch(ctx):
     pop = sm.func('XSDSimpleType', '_populate_permitted', T.M_SIMPLE)
     assigns = [n for n in ast.walk(pop.node) if isinstance(n, ast.Assign)]
     ok = len(assigns) == 1 and unparse(assigns[0].targets[0]) == 'self._PERMITTED' and unparse(assigns[0].value) == 'self.get_xsd_tree().get_permitted()'
+    if not ok and len(assigns) == 2:
+        # the list is built once per type and kept in the type's OWN dictionary (`'X' in cls.__dict__` - not a lookup through the MRO, which would hand a
+        # derived type its base's enumeration), the instance receives that list
+        CLS = ('self.__class__', 'type(self)', 'cls')
+        st_cls = [a for a in assigns if isinstance(a.targets[0], ast.Attribute) and unparse(a.targets[0].value) in CLS]
+        st_inst = [a for a in assigns if unparse(a.targets[0]) == 'self._PERMITTED']
+        if len(st_cls) == 1 and len(st_inst) == 1:
+            fld = st_cls[0].targets[0].attr
+            g_ = cfg_of(pop.node)
+            cn = g_.node_of_stmt.get(st_cls[0])
+            own = cn is not None and any(t.kind == 'test' and lab == 'F' and isinstance(t.ast, ast.Compare) and isinstance(t.ast.ops[0], ast.In) and
+                                         const_value(t.ast.left) == fld and unparse(dom.expand(g_, t.ast.comparators[0], t)).endswith('.__dict__')
+                                         for t, lab in dom.guards_of(g_, cn))
+            ok = own and unparse(st_cls[0].value) == 'self.get_xsd_tree().get_permitted()' and isinstance(st_inst[0].value, ast.Attribute) and \
+                st_inst[0].value.attr == fld and unparse(dom.expand(g_, st_inst[0].value.value, g_.node_of_stmt.get(st_inst[0]))) in CLS and fld not in FACET_TABLE_FIELDS
     res.check(ok, 'R-EXH.facets', pop.fq, "the enumeration list is read from the type's own restriction and stored on the instance",
               fail_detail='; '.join(short(a) for a in assigns), key='R-EXH.facets|permitted-source')
     ef = get_effects(ctx)
